@@ -225,7 +225,7 @@ func genC18Op(t *rapid.T) c18Op {
 	op.Dcoy = rapid.IntRange(0, 5).Draw(t, "dcoy")
 	op.Adv = rapid.SampledFrom([]int{0, 0, 0, 0, 1, 1, 2}).Draw(t, "adv")
 	if op.M == "syncGenesisHeader" {
-		op.Pay = rapid.IntRange(0, 5).Draw(t, "pay")
+		op.Pay = rapid.SampledFrom([]int{5, 5, 5, 0, 1, 2, 3, 4, 6}).Draw(t, "pay")
 		if op.Pay == 1 {
 			op.Raw = rapid.SliceOfN(rapid.Byte(), 0, 120).Draw(t, "raw")
 		}
@@ -290,6 +290,18 @@ const ethGenesisJSON = `{"parentHash":"0x000000000000000000000000000000000000000
 
 func ethGenesis() []byte { return []byte(fmt.Sprintf(ethGenesisJSON, strings.Repeat("00", 256))) }
 
+// posaGenesis is a genesis payload of the BSC-style handlers: an EVM header at height 400 whose
+// extra data lists two validators, plus one earlier validator set.
+func posaGenesis() []byte {
+	ext := "0x" + strings.Repeat("00", 32) + strings.Repeat("11", 20) + strings.Repeat("22", 20) + strings.Repeat("00", 65)
+	hdr := strings.Replace(string(ethGenesis()), `"number":"0x0"`, `"number":"0x190"`, 1)
+	hdr = strings.Replace(hdr, `"extraData":"0x11bbe8db4e347b4e8c937c1c8370e4b5ed33adb3db69cbdb7a38e1e50b1b82fa"`, `"extraData":"`+ext+`"`, 1)
+	return []byte(fmt.Sprintf(`{"Header":%s,"PrevValidators":[{"Height":200,"Validators":["0x%s"]}]}`, hdr, strings.Repeat("33", 20)))
+}
+
+// routers whose handler accepts posaGenesis (found by experiment): bsc, heco, pixiechain, hsc, bytom
+func posaRouter(r uint64) bool { return r == 6 || r == 7 || r == 19 || r == 20 || r == 22 }
+
 func genesisPayload(op c18Op, router uint64) (b []byte, valid bool) {
 	switch op.Pay {
 	case 0:
@@ -302,13 +314,17 @@ func genesisPayload(op c18Op, router uint64) (b []byte, valid bool) {
 		return ethGenesis(), router == 2
 	case 4:
 		return []byte("{}"), false
+	case 6:
+		return posaGenesis(), posaRouter(router)
 	default:
 		// router-matched cheap valid payload where there is one
-		switch router {
-		case 1:
+		switch {
+		case router == 1:
 			return btcHeader84(byte(op.Sub)), true
-		case 2:
+		case router == 2:
 			return ethGenesis(), true
+		case posaRouter(router):
+			return posaGenesis(), true
 		}
 		return []byte{0}, false
 	}
